@@ -57,6 +57,14 @@ const char *key_for_msg(const Msg &m, bool value_only_htab) {
   return nullptr;
 }
 
+// the same attribution for a message the stream ends inside of (its header section is complete, its body is not)
+const char *key_for_incomplete(const Result &R) {
+  if (R.term != h9112::T_INCOMPLETE) return nullptr;
+  if (bodyless_method(R.term_method) && R.term_content) return K_BODYLESS;
+  if (R.term_features & h9112::F_TE_LIST) return K_TELIST;
+  return nullptr;
+}
+
 // ------------------------------------------------------------------------------------------------ generator
 struct Gen {
   Src &s; std::string out; int skipped = 0;
@@ -313,8 +321,9 @@ extern "C" int LLVMFuzzerTestOneInput(const uint8_t *data, size_t size) {
       if (!k && m.method == "CONNECT" && m.may_reject) k = K_CONNERR;   // a refused CONNECT: the error reply does not end the connection
       if (k && verif_known(k)) { hit = k; at = m.begin; break; }
     }
+    if (!hit) { const char *k = key_for_incomplete(R); if (k && R.term_pos < stream.size() && verif_known(k)) { hit = k; at = R.term_pos; } }
     if (!hit && R.term == h9112::T_REJECT) { const char *k = key_for_reason(R.reason); if (verif_known(k)) { hit = k; at = R.term_pos; } }
-    if (!hit && R.term == h9112::T_REJECT && R.term_method == "CONNECT" && verif_known(K_CONNERR)) { hit = K_CONNERR; at = R.term_pos; }
+    if (!hit && (R.term == h9112::T_REJECT || R.term == h9112::T_INCOMPLETE) && R.term_method == "CONNECT" && R.term_pos < stream.size() && verif_known(K_CONNERR)) { hit = K_CONNERR; at = R.term_pos; }
     if (!hit) break;
     verif_known_skipped(hit); stream.resize(at);
   }
@@ -372,7 +381,9 @@ extern "C" int LLVMFuzzerTestOneInput(const uint8_t *data, size_t size) {
       case h9112::T_MAY: break;
       case h9112::T_REJECT: if (R.term_method == "CONNECT" && o.d[n].cmd != EVHTTP_REQ_CONNECT) VERIF_FAIL(K_CONNERR, "message %zu (CONNECT) is rejected (%s) as it must be, but the connection stays open and the bytes of the rejected message are parsed as a new request: %s", n, R.reason.c_str(), show(o.d[n]).c_str());
         VERIF_FAIL(key_for_reason(R.reason), "message %zu must be rejected (%s) but a request was delivered at/after it: %s", n, R.reason.c_str(), show(o.d[n]).c_str());
-      case h9112::T_INCOMPLETE: VERIF_FAIL(last ? last : "C23/delivered-incomplete", "the stream ends inside message %zu (%s) but the server delivered: %s", n, R.reason.c_str(), show(o.d[n]).c_str());
+      case h9112::T_INCOMPLETE: if (R.term_method == "CONNECT" && o.d[n].cmd != EVHTTP_REQ_CONNECT) VERIF_FAIL(K_CONNERR, "message %zu (CONNECT, %s) was refused, but the connection stays open and its bytes are parsed as a new request: %s", n, R.reason.c_str(), show(o.d[n]).c_str());
+        if (key_for_incomplete(R)) last = key_for_incomplete(R);
+        VERIF_FAIL(last ? last : "C23/delivered-incomplete", "the stream ends inside message %zu (%s) but the server delivered: %s", n, R.reason.c_str(), show(o.d[n]).c_str());
       case h9112::T_END: VERIF_FAIL(last ? last : "C23/delivered-beyond-stream", "the stream holds %zu message(s) but the server delivered %zu; extra: %s", n, m, show(o.d[n]).c_str());
     }
   }
